@@ -60,14 +60,30 @@ Qed.
    reads monotonically *)
 Lemma inv1_same cf s s' :
   Inv1 cf s ->
-  dicts s' = dicts s -> cur s' = cur s -> locks s' = locks s -> nlock s' = nlock s -> phase s' = phase s ->
+  (forall g, dicts s' g = dicts s g) -> cur s' = cur s -> locks s' = locks s -> nlock s' = nlock s ->
+  (forall c, phase s' c = phase s c) ->
   now s' = now s -> clk s' = clk s -> lkey s' = lkey s -> produced s' = produced s ->
   (f_inflight s' = false -> f_inflight s = false) -> (f_waited s' = false -> f_waited s = false) ->
   (f_phantom s' = false -> f_phantom s = false) ->
   Inv1 cf s'.
 Proof.
   intros I E1 E2 E3 E4 E5 E6 E7 E8 E9 F1 F2 F3. destruct I.
-  constructor; rewrite ?E1, ?E2, ?E3, ?E4, ?E5, ?E6, ?E7, ?E8, ?E9; auto.
+  constructor; rewrite ?E2, ?E3, ?E4, ?E6, ?E7, ?E8, ?E9.
+  1: { eapply LP_ext; [|eassumption]. exact E5. }
+  1: { intros g. rewrite E1. apply I_nodup0. }
+  1: { intros g. rewrite E1. apply I_sorted0. }
+  1: { intros g. rewrite E1. apply I_stamp0. }
+  1: { intros g. rewrite E1. apply I_place0. }
+  1: { intros g. rewrite E1. apply I_vdict0. }
+  1: { intros c. rewrite E5. apply I_vhit0. }
+  1: { intros c. rewrite E5. apply I_t1. }
+  1: { intros c k l t0 g. rewrite E5, E1. apply I_fresh0. }
+  1: { intros c. rewrite E5. apply I_byp0. }
+  1: { intros c. rewrite E5. apply I_nobyp0. }
+  1: { intros Hf c. rewrite E5. apply I_gen0. auto. }
+  1: { intros c. rewrite E5. apply I_le0. }
+  1: { intros Hf Hw c k l p b g. rewrite E5, E1. apply I_A0; auto. }
+  intros Hf Hw c k l t0 g. rewrite E5, E1. apply I_B0; auto.
 Qed.
 
 Ltac same_of I := apply (inv1_same _ _ _ I); sm; try reflexivity; try (intros H; exact H).
@@ -506,8 +522,8 @@ Proof.
   - intros g0 x v e Hx. updg g0 g; [apply (D_vdict _ _ HD _ _ _ Hx)|apply (I_vdict _ _ I _ _ _ _ Hx)].
   - intros c0 k0 v b H. updc c0 c H; [discriminate|apply (I_vhit _ _ I _ _ _ _ H)].
   - intros c0 k0 l0 t1 g1 H. updc c0 c H; [discriminate|apply (I_t0 _ _ I _ _ _ _ _ H)].
-  - intros c0 k0 l0 t1 g1 v e dl H Hg. updc c0 c H; [discriminate|].
-    apply (I_fresh _ _ I _ _ _ _ _ v e dl H); [|assumption].
+  - intros c0 k0 l0 t1 g1 v e dl H Hg Ht. updc c0 c H; [discriminate|].
+    apply (I_fresh _ _ I _ _ _ _ _ v e dl H); [|exact Ht].
     updg g1 g; [|exact Hg]. rewrite dget_dmark in Hg. destruct (Nat.eqb_spec k0 k) as [->|N]; [|exact Hg].
     rewrite Hd in Hg. discriminate.
   - intros c0 H. updc c0 c H; [discriminate|apply (I_byp _ _ I c0 H)].
@@ -593,10 +609,10 @@ Proof.
     + pose proof (I_A _ _ I Hf0 Hw0 _ _ _ _ _ _ H) as HA. updg g1 g; [|exact HA]. rewrite Hdict in HA.
       assert (Hne : sk x0 <> k0).
       { intros E. rewrite dget_cons, E, Nat.eqb_refl in HA. injection HA as HA. rewrite HA in Hx0.
-        eapply referenced_false; [exact Hx0| |].
+        eapply (referenced_false cf s _ c0); [exact Hx0| |].
         - apply (L_ncall _ _ _ _ _ (I_lp _ _ I)). congruence.
         - rewrite H. reflexivity. }
-      rewrite dget_dmark, (dget_tl k0 x0 r Hne), HA. destruct (Nat.eqb k0 k); reflexivity.
+      rewrite dget_dmark. destruct (Nat.eqb_spec k0 k) as [->|N]; rewrite (dget_tl _ x0 r Hne), HA; reflexivity.
   - intros Hf Hw. destruct (evict_flags_false cf s g x0 Hf Hw) as (Hf0 & Hw0 & Hx0).
     intros c0 k0 l0 t1 g1 H. updc c0 c H; [discriminate|].
     pose proof (I_B _ _ I Hf0 Hw0 _ _ _ _ _ H) as HB. updg g1 g; [|exact HB]. rewrite Hdict in HB.
@@ -606,8 +622,9 @@ Proof.
         rewrite HB in Hx0.
       - eapply referenced_false; [exact Hx0|exact Hc0|]. rewrite H. reflexivity.
       - subst k0. eapply waited_false; [exact Hx0|exact Hc0|exact H]. }
-    rewrite dget_dmark, (dget_tl k0 x0 r Hne).
-    destruct HB as [[b HB]|(v & e & HB)]; rewrite HB; destruct (Nat.eqb k0 k); eauto.
+    rewrite dget_dmark.
+    destruct (Nat.eqb_spec k0 k) as [->|N]; rewrite (dget_tl _ x0 r Hne);
+      destruct HB as [[b HB]|(v & e & HB)]; rewrite HB; eauto.
 Qed.
 
 (* ---------- leaf 11: the wrapped function returned: store, release, return (lines 205-209, 216) ---------- *)
